@@ -383,6 +383,27 @@ def main():
             ctx.tie_failures.append("correspondence run aborted: %s\n%s" % (ex, traceback.format_exc()[-1500:]))
     finally:
         ctx.close()
+    # search step (DESIGN section 5): an obligation or the tie broke but the property's oracle has not yet exhibited a failing
+    # input on the real code -> look further with fresh seeds before reporting `no-failing-input-found`
+    if (ctx.proof_failures or ctx.tie_failures or ctx.disagreements) and not ctx.oracle_failures:
+        searched = []
+        for extra_seed in (seed + 1, seed + 2, seed + 3):
+            if time.time() - ctx.t0 > 900:
+                break
+            sctx = Ctx(pid, tier, extra_seed)
+            try:
+                prop.run(sctx)
+            except Exception as ex:  # noqa
+                searched.append({"seed": extra_seed, "aborted": str(ex)[:200]})
+                continue
+            finally:
+                sctx.close()
+            searched.append({"seed": extra_seed, "evaluations": sctx.evaluations, "oracle_failures": len(sctx.oracle_failures)})
+            ctx.evaluations += sctx.evaluations
+            if sctx.oracle_failures:
+                ctx.oracle_failures += sctx.oracle_failures
+                break
+        ctx.extra["search_for_failing_input"] = searched
     return decide(ctx, prop)
 
 
